@@ -221,7 +221,7 @@ class ServiceDiscovery(object):
             if len(self.sdres) > 0 or len(self.sdreq) > 0:
                 send_pdu = pdu.ServiceNameLookup(dsap=1, ssap=1)
                 # add service discovery responses
-                while miu_size > 0:
+                while miu_size >= 4:
                     try:
                         send_pdu.sdres.append(self.sdres.popleft())
                         miu_size -= 4
